@@ -109,6 +109,9 @@ def gen_cases(tier):
     for kind in MENU:
         yield ('seq', kind)
     yield ('unknown',)
+    for i in range(len(CLI_CONTENTS)):
+        yield ('clicreate', i, 2 if tier == 'quick' else 3)
+    yield ('seqone',)
     yield ('terminal',)
     yield ('sameobject',)
     if tier == 'thorough':
@@ -457,6 +460,103 @@ def seq_terminal_case(acc):
                                   'do not print what the symbols\' QRCode.terminal print' % (len(seq), border, compact, rc), ('terminal',))
 
 
+# symbol creation flags of the command line tool and the keyword arguments they stand for (docs/command-line.rst)
+CLI_CONTENTS = ['12345', 'HELLO WORLD', 'hello', '\u70b9\u8317', 'A1b2 c3', 'ABCDEFGHIJKLMNOPQRSTUVWXYZ0123456789ABCDEFGHIJKLMNOPQRSTUVWXYZ']
+CLI_CREATE = [
+    ('version', [(['--version', '1'], 1), (['-v', '5'], 5), (['--version', 'M3'], 'M3'), (['--version', 'm4'], 'm4'), (['--version=10'], 10)]),
+    ('error', [(['--error', 'L'], 'L'), (['-e', 'm'], 'm'), (['--error=Q'], 'Q'), (['--error', 'H'], 'H'), (['--error', '-'], None)]),
+    ('mode', [(['--mode', 'numeric'], 'numeric'), (['--mode', 'alphanumeric'], 'alphanumeric'), (['-m', 'byte'], 'byte'), (['--mode', 'kanji'], 'kanji'),
+              (['--mode', 'hanzi'], 'hanzi'), (['--mode', 'BYTE'], 'byte')]),
+    ('mask', [(['--pattern', '0'], 0), (['-p', '3'], 3), (['--pattern', '7'], 7)]),
+    ('micro', [(['--micro'], True), (['--no-micro'], False)]),
+    ('boost_error', [(['--no-error-boost'], False)]),
+    ('encoding', [(['--encoding', 'utf-8'], 'utf-8'), (['--encoding', 'latin1'], 'latin1'), (['--encoding', 'shift_jis'], 'shift_jis')]),
+    ('seq', [(['--seq', '--symbol-count', '2'], {'symbol_count': 2}), (['--seq', '-sc', '1'], {'symbol_count': 1}), (['--seq'], {})]),
+]
+
+
+def clicreate_case(ci, k, acc):
+    """cli.parse + cli.make_code (the two steps cli.main performs) against make / make_sequence with the keyword arguments the flags stand for"""
+    content = CLI_CONTENTS[ci]
+    names = [n for n, _ in CLI_CREATE]
+    for r in range(k + 1):
+        for idxs in itertools.combinations(range(len(CLI_CREATE)), r):
+            for vals in itertools.product(*[CLI_CREATE[i][1] for i in idxs]):
+                argv, kw, seq = [], {}, None
+                for i, (flags, val) in zip(idxs, vals):
+                    argv += flags
+                    if names[i] == 'seq':
+                        seq = val
+                    else:
+                        kw[names[i]] = val
+                case = ('clicreate1', ci, argv)
+                # the tool's default is "no Micro QR" unless a Micro version is asked for or --micro is given
+                if seq is None and 'micro' not in kw:
+                    kw['micro'] = None if str(kw.get('version', '')).upper().startswith('M') else False
+                elif seq is None and kw['micro'] is False and str(kw.get('version', '')).upper().startswith('M'):
+                    kw['micro'] = None
+                if seq is not None:
+                    kw.pop('micro', None)          # (make_sequence has no such argument; the tool ignores the flags for --seq)
+                    kw.update(seq)
+
+                def api():
+                    return segno.make_sequence(content, **kw) if seq is not None else segno.make(content, **kw)
+
+                def tool():
+                    with contextlib.redirect_stdout(io.StringIO()), contextlib.redirect_stderr(io.StringIO()):
+                        cfg = cli.parse(argv + ['--', content])
+                    return cli.make_code(cfg)
+                res = []
+                for fn in (api, tool):
+                    try:
+                        x = fn()
+                        syms = list(x) if isinstance(x, segno.QRCodeSequence) else [x]
+                        res.append(tuple((q.designator, q.mask, q.mode, tuple(bytes(r_) for r_ in q.matrix)) for q in syms))
+                    except ValueError as e:
+                        res.append('ValueError')
+                    except SystemExit as e:
+                        res.append('ValueError')
+                    except Exception as e:
+                        res.append('exc:' + C.exc_name(e))
+                acc.eval(case, nontrivial=not isinstance(res[0], str), outcome=(res[0] == res[1]), state=('clicreate', tuple(names[i] for i in idxs)))
+                acc.count('cli_created')
+                if res[0] != res[1]:
+                    def show(x):
+                        return x if isinstance(x, str) else [t[:3] for t in x]
+                    acc.violation('cli-symbol', 'segno %s %r creates %r, the library call with %r creates %r' % (' '.join(argv), content[:20], show(res[1]), kw, show(res[0])), case)
+
+
+def seqone_case(acc):
+    """a sequence of one symbol offers the symbol's own methods: every route must give the symbol's document"""
+    seq = segno.make_sequence('HELLO', symbol_count=1, error='M', mask=2)
+    qr = seq[0]
+    probes = [('svg_data_uri', {}), ('svg_data_uri', {'scale': 2, 'dark': 'red'}), ('png_data_uri', {'scale': 3}), ('svg_inline', {'border': 1})]
+    for name, kw in probes:
+        try:
+            a, b = getattr(seq, name)(**kw), getattr(qr, name)(**kw)
+        except Exception as e:
+            a, b = 'exc:' + C.exc_name(e), None
+        acc.eval(('seqone', name, tuple(kw)), nontrivial=True, outcome=(a == b), state=('seqone', name))
+        if a != b:
+            acc.violation('sequence-delegation/' + name, 'QRCodeSequence(1 symbol).%s(**%r) differs from the symbol\'s own %s' % (name, kw, name), ('seqone',))
+    for attr in ('version', 'error', 'mask', 'mode', 'designator', 'is_micro', 'matrix', 'default_border_size'):
+        try:
+            a, b = getattr(seq, attr), getattr(qr, attr)
+        except Exception as e:
+            a, b = 'exc:' + C.exc_name(e), None
+        if a != b:
+            acc.violation('sequence-delegation/' + attr, 'QRCodeSequence(1 symbol).%s = %r, the symbol reports %r' % (attr, a, b), ('seqone',))
+    for kind in ('png', 'svg', 'txt', 'eps'):
+        s1, s2 = stream_for(kind), stream_for(kind)
+        opts = {} if kind == 'txt' else {'scale': 2}
+        seq.save(s1, kind=kind, **opts)
+        qr.save(s2, kind=kind, **opts)
+        same = mask_ts(to_bytes(kind, s1.getvalue())) == mask_ts(to_bytes(kind, s2.getvalue()))
+        acc.eval(('seqone', 'save', kind), nontrivial=True, outcome=same, state=('seqone', 'save', kind))
+        if not same:
+            acc.violation('sequence-delegation/save', 'QRCodeSequence(1 symbol).save(stream, kind=%r) differs from the symbol\'s save' % kind, ('seqone',))
+
+
 def subproc_case(kind, acc, tmp):
     content, argv, _ = SYMBOLS['7H']
     menu = MENU[kind]
@@ -488,6 +588,12 @@ def run_case(case, acc):
             seq_case(case[1], acc, tmp)
         elif kind == 'unknown':
             unknown_case(acc, tmp)
+        elif kind == 'clicreate':
+            clicreate_case(case[1], case[2], acc)
+        elif kind == 'clicreate1':
+            clicreate_case(case[1], 3, acc)
+        elif kind == 'seqone':
+            seqone_case(acc)
         elif kind == 'terminal':
             terminal_case(acc)
             seq_terminal_case(acc)
